@@ -1,14 +1,19 @@
 #!/bin/bash
-# apply each seeded mutation to /repo, run the check of the property it targets, undo it
+# apply each seeded change to /repo, run the check(s) it targets, undo it.
+#   seeded/Cxx*      : a property-breaking change -> the check of Cxx must report a VIOLATION
+#   seeded/harmless* : a semantics-preserving refactor -> every check must stay silent
 cd /verif
-for d in seeded/C*; do
+for d in seeded/*; do
   id=$(basename $d)
   [ -n "$1" ] && [ "$1" != "$id" ] && continue
-  [ "$id" = "C20" ] && [ ! -x ./check ] && continue
-  git -C /repo checkout -q -- . 
-  if ! git -C /repo apply $PWD/$d/patch.diff; then echo "$id APPLY-FAILED"; continue; fi
-  out=$(./check $id 2>&1 | grep -E "^(VIOLATION|OK|KNOWN|NOTE)" | cut -c1-220)
+  [ -f $d/patch.diff ] || continue
   git -C /repo checkout -q -- .
-  echo "== $id"; echo "$out"
+  if ! git -C /repo apply $PWD/$d/patch.diff; then echo "$id APPLY-FAILED"; continue; fi
+  echo "== $id"
+  case "$id" in
+    harmless*) for i in $(seq -w 1 19); do ./check C$i 2>&1 | grep -E "^(VIOLATION|OK)" | cut -c1-120 | grep -v "^OK"; done; echo "(harmless: lines above, if any, are alarms)";;
+    *) ./check ${id:0:3} 2>&1 | grep -E "^(VIOLATION|OK|NOTE)" | cut -c1-200;;
+  esac
+  git -C /repo checkout -q -- .
 done
 git -C /repo status --short | head -3
